@@ -16,13 +16,15 @@ PROPERTY = "C19"
 LEVEL = "exploration"
 RULE = ("one evaluation = one seeded history: (bytes) <= 60 seek/tell/read/length/etag operations on an HTTPFile/S3File "
         "with per-run chunk size (1..64), cache capacity (1..5) and resource size around multiples of the chunk size, under "
-        "transient connection errors/timeouts (retried by the client) - or (dataset) one generated .rtdc served by the "
+        "transient connection errors/timeouts (retried by the client), incl. further file objects opened on the same URL with another "
+        "chunk size/capacity, optionally after the served resource was replaced, on servers with and without ETag - or (dataset) one generated .rtdc served by the "
         "simulated range server and read through RTDC_HTTP with small chunk/cache knobs, compared with RTDC_HDF5 on the same "
         "bytes. non-trivial = >=1 read and >=1 comparison; distinct = distinct event-log digests")
 STATE_MEASURE = "distinct (pos mod c, n relative to c, crosses end?, cache occupancy, evicted chunk re-requested?, retried?) tuples"
 PROBES = ["read_ends_on_chunk_boundary", "read_spans_3_chunks", "read_reaches_end", "read_crosses_end", "read_all",
           "evicted_chunk_rerequested", "retry_took_2plus_attempts", "outage_longer_than_budget", "keep_chunks_1",
-          "server_strict", "server_s3like", "dataset_level", "s3file", "seek_end", "empty_resource"]
+          "server_strict", "server_s3like", "dataset_level", "s3file", "seek_end", "empty_resource",
+          "reopened_with_other_chunk_size", "resource_replaced_then_reopened", "server_without_etag"]
 COMPONENTS = {
     "real": ["dclab.http_utils.HTTPFile / ResoluteRequestsSession (retry loop)", "dclab fmt_s3.S3File._parse_header/download_range",
              "dclab RTDC_HTTP + h5py reading through the file object", "requests Session/Response machinery above the transport adapter"],
@@ -54,7 +56,7 @@ def make_trace(seed, tier, idx=None):
         "knobs": {"chunk": c, "keep": r.choice([1, 2, 2, 3, 5]), "size": max(0, size),
                   "personality": r.choice(["strict", "s3like"]),
                   "fault_rate": r.choice([0.0, 0.0, 0.1, 0.2]), "slow_rate": r.choice([0.0, 0.0, 0.05]),
-                  "long_outage": r.random() < 0.06},
+                  "long_outage": r.random() < 0.06, "no_etag": r.random() < 0.25, "reopen_rate": r.choice([0.0, 0.04, 0.1])},
         "max_ops": r.choice([8, 20, 40, 60]),
         "ops": None,
     }
@@ -75,22 +77,28 @@ class ByteWorld:
         self.net = simnet.SimNet(ctx).install()
         host = self.net.host("obj-1.sim.test", k["personality"])
         ctx.probe("server_" + k["personality"])
+        if k.get("no_etag"):
+            ctx.probe("server_without_etag")
         rs = seeds.np_rng(ctx.seed, "blob")
         self.blob = rs.integers(0, 256, size=k["size"], dtype=np.uint8).tobytes()
         if k["size"] == 0:
             ctx.probe("empty_resource")
         self.c, self.keep = k["chunk"], k["keep"]
+        host.no_etag = bool(k.get("no_etag"))
+        self.host = host
         if self.keep == 1:
             ctx.probe("keep_chunks_1")
         if trace["klass"] == "s3bytes":
             import dclab.rtdc_dataset.fmt_s3 as fs3
             self.url = "http://obj-1.sim.test:80/bucket/key-1"
+            self.path = "/bucket/key-1"
             host.objects["/bucket/key-1"] = self.blob
             self.f = fs3.S3File("bucket/key-1", "http://obj-1.sim.test:80")
             self.f._chunk_size, self.f._keep_chunks = self.c, self.keep
             ctx.probe("s3file")
         else:
             self.url = "http://obj-1.sim.test/data/blob.bin"
+            self.path = "/data/blob.bin"
             host.objects["/data/blob.bin"] = self.blob
             self.f = hu.HTTPFile(self.url, chunk_size=self.c, keep_chunks=self.keep)
         self.pos = 0
@@ -100,8 +108,14 @@ class ByteWorld:
         self.outage_used = False
 
     def gen_op(self, r):
-        x = r.random()
         L, c = self.L, self.c
+        if self.t["klass"] == "bytes" and r.random() < self.t["knobs"].get("reopen_rate", 0.0):
+            # a second file object on the same URL (other chunk grid / capacity), optionally after the resource was replaced
+            op = {"k": "reopen", "chunk": r.choice([1, 2, 3, 5, 8, 16, 31, 64, c, 2 * c]), "keep": r.choice([1, 2, 3, 5])}
+            if r.random() < 0.35:
+                op["replace"] = {"size": r.choice([L, L, max(0, L - 1), L + 1, 2 * L + 3]), "bseed": r.randrange(1 << 30)}
+            return op
+        x = r.random()
         if x < 0.38:
             whence = r.choice([0, 0, 1, 2])
             if whence == 0:
@@ -141,6 +155,24 @@ class ByteWorld:
         net.fault_rate = knobs["fault_rate"] if self.t["klass"] != "s3bytes" else 0.0
         net.slow_rate = knobs["slow_rate"] if self.t["klass"] != "s3bytes" else 0.0
         net.fault_burst = 0
+        if k == "reopen":
+            import dclab.http_utils as hu
+            if op.get("replace"):
+                rs = seeds.np_rng(op["replace"]["bseed"], "blob")
+                self.blob = rs.integers(0, 256, size=op["replace"]["size"], dtype=np.uint8).tobytes()
+                self.host.objects[self.path] = self.blob
+                self.host.etags.clear()
+                self.L = len(self.blob)
+                ctx.probe("resource_replaced_then_reopened")
+            if op["chunk"] != self.c:
+                ctx.probe("reopened_with_other_chunk_size")
+            self.c, self.keep = op["chunk"], op["keep"]
+            with ctx.sut("C19.reopen"):
+                self.f = hu.HTTPFile(self.url, chunk_size=self.c, keep_chunks=self.keep)
+            self.pos = 0
+            self.seen_chunks, self.evicted = set(), set()
+            ctx.log("c", f"reopen chunk {self.c} keep {self.keep} replaced {bool(op.get('replace'))}")
+            return
         if k == "seek":
             with ctx.sut("C19.seek"):
                 f.seek(op["off"], op["whence"])
